@@ -28,6 +28,17 @@ pub fn op_key(op: &Value) -> String {
 
 pub fn env_of(hash_seed: u64, fake_time: Option<u64>) -> Vec<(String, String)> {
     let mut e = vec![("VERIF_HASH_SEED".to_string(), hash_seed.to_string())];
+    // environment noise derived from the seed (proc.env): none of it may matter
+    if hash_seed != 0 {
+        let tz = ["UTC", "Europe/Madrid", "Pacific/Kiritimati", "America/Caracas"][(hash_seed % 4) as usize];
+        let lang = ["C", "es_ES.UTF-8", "en_US.UTF-8", "tr_TR.UTF-8"][((hash_seed / 4) % 4) as usize];
+        e.push(("TZ".to_string(), tz.to_string()));
+        e.push(("LANG".to_string(), lang.to_string()));
+        e.push(("LC_ALL".to_string(), lang.to_string()));
+        e.push(("USER".to_string(), format!("usuario{}", hash_seed % 7)));
+        e.push(("HOME".to_string(), format!("/home/usuario{}", hash_seed % 7)));
+        e.push(("RUST_LOG".to_string(), ["", "error", "debug", "trace"][((hash_seed / 16) % 4) as usize].to_string()));
+    }
     if let Some(t) = fake_time {
         e.push(("VERIF_FAKE_TIME".to_string(), t.to_string()));
     }
@@ -558,6 +569,18 @@ pub fn run(tier: &str, seed: u64, replay: Option<String>) -> i32 {
                 env: env_of(0, None),
             });
             n_edited += 1;
+        }
+        // two adjacent unrelated definitions swapped; an unreferenced definition renamed
+        let n_more = if thorough { 12 } else { 2 };
+        for _ in 0..n_more {
+            for mode in ["swap", "rename_unused"] {
+                cases.push(Case {
+                    mode: "fixed",
+                    job: single_job(&json!({"op":"convert_edited","file":f.rel,"def":rng.below(100_000),"mode":mode})),
+                    env: env_of(0, None),
+                });
+                n_edited += 1;
+            }
         }
     }
     for (p, m) in corpus::reference_pairs() {
